@@ -302,6 +302,104 @@ func (x *Ctx) scratchRules(r *core.Result, rs *core.RuleStat) {
 	if rs.Instances < 4 {
 		r.Undecided(rs, "floor", "-", fmt.Sprintf("only %d scratch-buffer loads found (expected >= 4)", rs.Instances))
 	}
+	x.scratchOwnership(r, rs)
+}
+
+// scratchOwnership: a reader's scratch buffer is owned by that reader alone: whatever is stored into a []byte
+// field of a ValueReader is nil or the result of a destination-taking library function whose destination was the
+// very same field of the very same reader, truncated to length 0. Two readers sharing one backing array would let a
+// child overwrite bytes the parent still refers to (e.g. a pending key).
+func (x *Ctx) scratchOwnership(r *core.Result, rs *core.RuleStat) {
+	w := x.W
+	st := x.vrStruct()
+	if st == nil {
+		return
+	}
+	dests := x.destFuncs()
+	for _, fn := range w.SrcFuncs() {
+		for _, b := range fn.Blocks {
+			for _, ins := range b.Instrs {
+				sto, ok := ins.(*ssa.Store)
+				if !ok {
+					continue
+				}
+				fa, ok := sto.Addr.(*ssa.FieldAddr)
+				if !ok || structOfType(fa.X.Type()) != st || !isByteSliceT(st.Field(fa.Field).Type()) {
+					continue
+				}
+				rs.Instances++
+				key := fmt.Sprintf("%s:store %s", fnKey(fn), st.Field(fa.Field).Name())
+				if msg := x.ownScratchValue(sto.Val, fa, dests, map[ssa.Value]bool{}); msg != "" {
+					r.Fail(rs, key, w.Pos(sto.Pos()), "scratch buffer field "+st.Field(fa.Field).Name()+" receives "+msg+": its backing array may then be shared with another reader or with the input, and bytes still referred to (a pending key, a string being built) can be overwritten")
+				} else {
+					rs.OK(1)
+					rs.Sample(key + ": result of a decoding call on this reader's own buffer[:0]")
+				}
+			}
+		}
+	}
+}
+
+// ownScratchValue: "" if v is nil or derives from this reader's own field (same base object, same field) through
+// [:0], append and destination-taking library calls.
+func (x *Ctx) ownScratchValue(v ssa.Value, target *ssa.FieldAddr, dests map[*ssa.Function]destSig, seen map[ssa.Value]bool) string {
+	if seen[v] {
+		return ""
+	}
+	seen[v] = true
+	if isNilConst(v) {
+		return ""
+	}
+	switch t := v.(type) {
+	case *ssa.Phi:
+		for _, e := range t.Edges {
+			if m := x.ownScratchValue(e, target, dests, seen); m != "" {
+				return m
+			}
+		}
+		return ""
+	case *ssa.Extract:
+		c, ok := t.Tuple.(*ssa.Call)
+		if !ok {
+			return "a value of unknown origin"
+		}
+		callee := c.Call.StaticCallee()
+		if callee == nil {
+			return "the result of a dynamic call"
+		}
+		sig, ok := dests[callee]
+		if !ok || t.Index != sig.result {
+			return "a result of " + callee.Name() + " that is not its destination"
+		}
+		return x.ownScratchValue(c.Call.Args[sig.param], target, dests, seen)
+	case *ssa.Call:
+		if bi, ok := t.Call.Value.(*ssa.Builtin); ok && bi.Name() == "append" {
+			return x.ownScratchValue(t.Call.Args[0], target, dests, seen)
+		}
+		if callee := t.Call.StaticCallee(); callee != nil {
+			if sig, ok := dests[callee]; ok && callee.Signature.Results().Len() == 1 {
+				return x.ownScratchValue(t.Call.Args[sig.param], target, dests, seen)
+			}
+		}
+		return "the result of a call that does not extend this buffer"
+	case *ssa.Slice:
+		ld, ok := t.X.(*ssa.UnOp)
+		if !ok || ld.Op != token.MUL {
+			return "a slice of something other than this reader's buffer"
+		}
+		fa, ok := ld.X.(*ssa.FieldAddr)
+		if !ok || structOfType(fa.X.Type()) != structOfType(target.X.Type()) {
+			return "a slice of something other than a reader's buffer"
+		}
+		if fa.Field != target.Field {
+			return "a slice of a different buffer field"
+		}
+		if !sameObject(fa.X, target.X) {
+			return "a slice of ANOTHER reader's buffer"
+		}
+		return ""
+	}
+	return fmt.Sprintf("a value of unexpected origin (%T)", v)
 }
 
 func structOfType(t types.Type) *types.Struct {
